@@ -3,6 +3,7 @@ import TF.Proofs.PolyInterpBary
 import TF.Proofs.PolyInterpEO
 import TF.Proofs.PolyInterpMemo
 import TF.Proofs.PolyInterpDup
+import TF.Proofs.PolyApi
 /-!
 # C08 — interpolation, bulk evaluation, zerofiers and coset extrapolation are exact
 
@@ -231,10 +232,10 @@ theorem fast_coset_evaluate_spec (p : List K) (offset : K) (order : Nat) (ω : K
 omit hN in
 theorem fast_coset_evaluate_panics (p : List K) (offset : K) (order : Nat) :
     fastCosetEvaluate FK E p offset order = none ↔
-      ¬ (degSucc FK p ≤ order ∧ (order = 0 ∨ isPow2 order = true)) := by
+      ¬ (degSucc FK p ≤ order ∧ (order = 0 ∨ TF.Model.PolyI.isPow2 order = true)) := by
   unfold fastCosetEvaluate nttChecked
-  simp only [length_resize]
-  by_cases h1 : degSucc FK p ≤ order <;> by_cases h2 : order = 0 <;> by_cases h3 : isPow2 order = true <;>
+  simp only [TF.Model.PolyI.length_resize]
+  by_cases h1 : degSucc FK p ≤ order <;> by_cases h2 : order = 0 <;> by_cases h3 : TF.Model.PolyI.isPow2 order = true <;>
     simp [h1, h2, h3]
 
 /-- `fast_coset_interpolate` returns the unique polynomial of degree `< n` through the values on the coset. -/
@@ -368,5 +369,102 @@ example : 2 ≤ Thr.src.zf ∧ 0 < Thr.src.rt ∧ 2 ≤ Thr.src.batch := by deci
 
 /-- the thresholds the theorems are instantiated with by the driver come from the source -/
 example : TF.Gen.FAST_ZEROFIER_CUTOFF_THRESHOLD = 100 := rfl
+
+
+/-! ### G07 — public functions that had no theorem before the API audit (docs/POLY_API_COVERAGE.md) -/
+section api
+
+/-- `evaluate::<Ind, Eval>` of a polynomial over `K` at a point of an extension field `L` (e.g. a base-field
+    polynomial at an extension-field point) is evaluation along the embedding, `eval₂ (algebraMap K L)`. -/
+theorem evaluate_mixed_spec {L : Type} [Field L] [Algebra K L] (rootL : Nat → Option L) (p : List K) (x : L) :
+    evaluateLift (FieldOps.ofField L rootL) (algebraMap K L) p x = (denote p).eval₂ (algebraMap K L) x :=
+  evaluateLift_spec rootL p x
+example : evaluateLift (FieldOps.ofField ℚ) (algebraMap ℚ ℚ) [1, 2, 0] 3 = 7 := by
+  rw [evaluate_mixed_spec]; norm_num [denote]
+
+/-- **`are_colinear_3`**: true exactly when the three abscissae are pairwise distinct and one line `y = a·x + b`
+    passes through the three points. -/
+theorem are_colinear_3_spec (p0 p1 p2 : K × K) :
+    areColinear3 FK p0 p1 p2 = true ↔
+      (p0.1 ≠ p1.1 ∧ p1.1 ≠ p2.1 ∧ p2.1 ≠ p0.1) ∧ ∃ a b : K, OnLine a b p0 ∧ OnLine a b p1 ∧ OnLine a b p2 :=
+  areColinear3_iff root p0 p1 p2
+example : OnLine (3 : ℚ) 5 (1, 8) ∧ OnLine (3 : ℚ) 5 (2, 11) := by constructor <;> norm_num [OnLine]
+
+/-- **`are_colinear`**, every list: true exactly when there are at least three points, the abscissae are pairwise
+    distinct and one line passes through all of them (the division by `x₀ - x₁` cannot panic: it is only reached
+    for distinct abscissae). -/
+theorem are_colinear_spec (points : List (K × K)) :
+    areColinear FK points = true ↔
+      3 ≤ points.length ∧ (points.map (·.1)).Nodup ∧ ∃ a b : K, ∀ p ∈ points, OnLine a b p :=
+  areColinear_iff root points
+example : ([(1, 8), (2, 11), (4, 17)] : List (ℚ × ℚ)).map (·.1) = [1, 2, 4] := rfl
+
+/-- the two colinearity tests agree on three points -/
+theorem are_colinear_agrees_with_3 (p0 p1 p2 : K × K) :
+    areColinear FK [p0, p1, p2] = areColinear3 FK p0 p1 p2 := by
+  rw [Bool.eq_iff_iff, are_colinear_spec, are_colinear_3_spec]
+  constructor
+  · rintro ⟨_, hn, a, b, h⟩
+    simp only [List.map_cons, List.map_nil, List.nodup_cons, List.mem_cons, List.not_mem_nil, or_false,
+      not_or, List.nodup_nil, and_true] at hn
+    exact ⟨⟨hn.1.1, hn.2.1, fun h' => hn.1.2 h'.symm⟩, a, b, h p0 (by simp), h p1 (by simp), h p2 (by simp)⟩
+  · rintro ⟨⟨h01, h12, h20⟩, a, b, e0, e1, e2⟩
+    refine ⟨by simp, ?_, a, b, ?_⟩
+    · simp only [List.map_cons, List.map_nil, List.nodup_cons, List.mem_cons, List.not_mem_nil, or_false,
+        not_or, List.nodup_nil, and_true]
+      exact ⟨⟨h01, fun h' => h20 h'.symm⟩, h12, not_false⟩
+    · intro p hp
+      simp only [List.mem_cons, List.not_mem_nil, or_false] at hp
+      rcases hp with rfl | rfl | rfl <;> assumption
+example : (1 : ℚ) ≠ 2 ∧ (2 : ℚ) ≠ 4 ∧ (4 : ℚ) ≠ 1 := by norm_num
+
+/-- **`get_colinear_y`** for distinct abscissae: it does not panic and returns the ordinate at `x` of *the* line
+    through the two points (there is one, and every line through them gives this value) — i.e. the value of the
+    degree-≤1 interpolant; for equal abscissae it panics (`assert_ne!`). -/
+theorem get_colinear_y_spec (p0 p1 : K × K) (x : K) :
+    (p0.1 ≠ p1.1 → ∃ y, getColinearY FK p0 p1 x = some y ∧
+      (∃ a b : K, OnLine a b p0 ∧ OnLine a b p1 ∧ y = a * x + b) ∧
+      (∀ a b : K, OnLine a b p0 → OnLine a b p1 → y = a * x + b)) ∧
+    (getColinearY FK p0 p1 x = none ↔ p0.1 = p1.1) :=
+  ⟨getColinearY_spec root p0 p1 x, getColinearY_none root p0 p1 x⟩
+example : ((1 : ℚ), (8 : ℚ)).1 ≠ ((2 : ℚ), (11 : ℚ)).1 := by norm_num
+
+/-- **`lagrange_interpolate_zipped`** (points given as pairs): for a non-empty list with pairwise distinct abscissae it
+    returns the unique interpolant; for the empty list and for a repeated abscissa it panics (the two `assert!`s). -/
+theorem lagrange_interpolate_zipped_spec {E : Ext K} (hE : E.Lawful) (points : List (K × K)) :
+    (points ≠ [] → (points.map (·.1)).Nodup →
+      ∃ f, lagrangeInterpolateZipped FK E points = some f ∧
+        Interpolates (points.map (·.1)) (points.map (·.2)) (denote f)) ∧
+    (points = [] ∨ ¬ (points.map (·.1)).Nodup → lagrangeInterpolateZipped FK E points = none) := by
+  constructor
+  · intro hne hn
+    unfold lagrangeInterpolateZipped
+    rw [if_neg (by simpa using hne), (allUnique_iff root _).2 hn]
+    simp only [Bool.not_true, Bool.false_eq_true, if_false]
+    exact lagrange_interpolate_spec root hE _ (by decide) _ _ hn (by simp)
+  · rintro (rfl | hd)
+    · rfl
+    · unfold lagrangeInterpolateZipped
+      split
+      · rfl
+      · have : allUnique FK (points.map (·.1)) = false := by
+          rw [Bool.eq_false_iff]; exact fun h => hd ((allUnique_iff root _).1 h)
+        rw [this]; rfl
+example : ([((1 : ℚ), (5 : ℚ)), (2, 7)].map (·.1)).Nodup := by decide
+
+/-- **hand-built zerofier trees.**  Every tree assembled from the public constructors `Leaf::new`, `Branch::new` and
+    `Padding` — any shape: unbalanced, padding anywhere, empty or oversized leaves, for every zerofier cut-off `T ≥ 2` —
+    is built without a panic, stores `∏ (X - x)` over the points below every node, and
+    `divide_and_conquer_batch_evaluate` over it returns the evaluations in left-to-right order. -/
+theorem hand_built_tree_spec {E : Ext K} (hE : E.Lawful) (T : Nat) (hT : 2 ≤ T) (s : TreeSpec K) (p : List K) :
+    ∃ t, buildTree FK E T s = some t ∧ t.Good ∧ t.points = s.points ∧
+      denote (t.zerofier FK) = zpoly s.points ∧
+      dcEval FK E p t = some (s.points.map (fun x => (denote p).eval x)) := by
+  obtain ⟨t, ht⟩ := Option.isSome_iff_exists.1 (buildTree_total root (E := E) T hT s)
+  obtain ⟨hg, hp⟩ := buildTree_good root hE T s t ht
+  exact ⟨t, ht, hg, hp, by rw [hg.zerofier root, hp], by rw [dcEval_spec root hE p t hg, hp]⟩
+example : (TreeSpec.branch (.leaf [1, 2]) (.branch .padding (.leaf [(3 : ℚ)]))).points = [1, 2, 3] := rfl
+
+end api
 
 end TF.C08
